@@ -6,6 +6,9 @@ package simnet
 
 import (
 	"bytes"
+	"crypto/sha256"
+	"encoding/binary"
+	"encoding/hex"
 	"encoding/json"
 	"fmt"
 	"sort"
@@ -42,6 +45,92 @@ func canonicalJSON(raw json.RawMessage) string {
 func storeDigestOn(a *Node, ctx sdk.Context, store string) string {
 	w := &World{Ref: a}
 	return storeDigest(w, ctx, store, nil)
+}
+
+// ExportCap is the number of records per registration a genesis export carries (the statement of
+// C15: "retained records (the newest 20,000 per registration)").
+const ExportCap = 20000
+
+// exporterDigest is the digest of a store of the exporting chain as an import of its export has
+// to reproduce it: identical, except that a WRKChain/BEACON holding more than ExportCap records
+// keeps the newest ExportCap of them, with its in-state counters saying so.
+func exporterDigest(a *Node, ctx sdk.Context, store string) string {
+	if store != wrkchaintypes.StoreKey && store != beacontypes.StoreKey {
+		return storeDigestOn(a, ctx, store)
+	}
+	st := ctx.KVStore(a.App.GetKey(store))
+	count := map[string]int{}
+	it := st.Iterator([]byte{0x02}, []byte{0x03})
+	for ; it.Valid(); it.Next() {
+		if k := it.Key(); len(k) == 17 {
+			count[string(k[1:9])]++
+		}
+	}
+	it.Close()
+	big := false
+	for _, c := range count {
+		if c > ExportCap {
+			big = true
+		}
+	}
+	if !big {
+		return storeDigestOn(a, ctx, store)
+	}
+	// second pass: skip the oldest records beyond the cap, patch the counters of the registration
+	seen := map[string]int{}
+	lowest := map[string]uint64{}
+	h := sha256.New()
+	put := func(k, v []byte) {
+		var lenbuf [4]byte
+		lenbuf[0], lenbuf[1], lenbuf[2], lenbuf[3] = byte(len(k)>>8), byte(len(k)), byte(len(v)>>8), byte(len(v))
+		h.Write(lenbuf[:])
+		h.Write(k)
+		h.Write(v)
+	}
+	// lowest kept key per big registration
+	it = st.Iterator([]byte{0x02}, []byte{0x03})
+	for ; it.Valid(); it.Next() {
+		k := it.Key()
+		if len(k) != 17 {
+			continue
+		}
+		id := string(k[1:9])
+		seen[id]++
+		if c := count[id]; c > ExportCap && seen[id] == c-ExportCap+1 {
+			lowest[id] = binary.BigEndian.Uint64(k[9:17])
+		}
+	}
+	it.Close()
+	seen = map[string]int{}
+	cdc := a.App.AppCodec()
+	all := st.Iterator(nil, nil)
+	defer all.Close()
+	for ; all.Valid(); all.Next() {
+		k, v := all.Key(), all.Value()
+		switch {
+		case len(k) == 17 && k[0] == 0x02:
+			id := string(k[1:9])
+			seen[id]++
+			if c := count[id]; c > ExportCap && seen[id] <= c-ExportCap {
+				continue
+			}
+		case len(k) == 9 && k[0] == 0x01 && count[string(k[1:9])] > ExportCap:
+			id := string(k[1:9])
+			if store == wrkchaintypes.StoreKey {
+				var wc wrkchaintypes.WrkChain
+				cdc.MustUnmarshal(v, &wc)
+				wc.NumBlocks, wc.LowestHeight = ExportCap, lowest[id]
+				v = cdc.MustMarshal(&wc)
+			} else {
+				var b beacontypes.Beacon
+				cdc.MustUnmarshal(v, &b)
+				b.NumInState, b.FirstIdInState = ExportCap, lowest[id]
+				v = cdc.MustMarshal(&b)
+			}
+		}
+		put(k, v)
+	}
+	return hex.EncodeToString(h.Sum(nil)[:12])
 }
 
 func (w *World) initFrom(appState []byte, height int64) (*Node, string) {
@@ -95,7 +184,12 @@ func (w *World) takeFork() {
 	actx := w.CCtx()
 	// (3) observable equality of the four modules
 	for _, s := range customStores {
-		da, db := storeDigestOn(a, actx, s), storeDigestOn(b, bctx, s)
+		da, db := exporterDigest(a, actx, s), storeDigestOn(b, bctx, s)
+		if s == wrkchaintypes.StoreKey || s == beacontypes.StoreKey {
+			if w.T.Knobs.BigReg != nil {
+				w.Probe("c15.export-beyond-record-cap")
+			}
+		}
 		if da != db {
 			w.Violate("C15", "C15/state-differs-after-import/"+s, "module %s: state of the importing chain differs from the exporting chain at height %d%s", s, a.Height, w.describeDiff(a, actx, b, bctx, s))
 		}
@@ -235,7 +329,7 @@ func (f *Fork) follow(w *World, rec *BlockRec) {
 	actx := w.CCtx()
 	bctx := b.App.BaseApp.NewUncachedContext(false, hdr)
 	for _, s := range customStores {
-		if storeDigestOn(w.Ref, actx, s) != storeDigestOn(b, bctx, s) {
+		if exporterDigest(w.Ref, actx, s) != storeDigestOn(b, bctx, s) {
 			w.Violate("C15", "C15/state-diverges-after-import/"+s, "module %s differs at height %d (import at %d)%s", s, rec.Height, f.AtHeight, w.describeDiff(w.Ref, actx, b, bctx, s))
 			f.dead = true
 		}
